@@ -80,6 +80,17 @@ STRINGS = [b"", b"a", b"ab", b"abc", b"main", b"hello", b"GLSL.std.450", b"OpenC
            b"x y", b'q"uote', b"back\\slash", b"tab\there", "𝄞clef".encode(), b"seven77", b"eight888"]
 
 
+# lengths around the powers of two up to 4096 (block sizes, small-string buffers, 8- and 12-bit counters): the rules for strings do not depend
+# on how long the string is
+LONG_LENGTHS = [15, 16, 17, 31, 32, 33, 62, 63, 64, 65, 66, 67, 70, 127, 128, 129, 130, 255, 256, 257, 258, 511, 512, 513, 1023, 1024, 1025,
+                4095, 4096, 4097]
+
+
+def long_string(n, salt=0):
+    """n bytes of ASCII letters that differ from position to position (so a shifted or truncated copy is visible)"""
+    return bytes(97 + ((i * 7 + i // 26 + salt) % 26) for i in range(n))
+
+
 def supported(t):
     """widths parse_literal accepts (None = untracked id: one word)"""
     if t is None:
@@ -120,7 +131,11 @@ class Gen:
         if method in ("bit32", "ext_inst_integer"):
             return [Op("w", vi, self.rnd.choice([0, 1, 2, 7, 255, 65536, 0x7fffffff, 0xffffffff, self.rnd.randrange(1 << 32)]) if force is None else force)]
         if method == "string":
-            return [Op("s", vi, list(self.rnd.choice(STRINGS)) if force is None else force)]
+            if force is not None:
+                return [Op("s", vi, force)]
+            if self.rnd.random() < 0.12:
+                return [Op("s", vi, list(long_string(self.rnd.choice(LONG_LENGTHS), self.rnd.randrange(26))))]
+            return [Op("s", vi, list(self.rnd.choice(STRINGS)))]
         d = self.dec[method]
         if d["mask"]:
             consts = [v for _, v in self.masks[d["type"]]["consts"] if v]
